@@ -6,7 +6,7 @@ import vlib
 from vlib import glist
 
 PID = "C07"
-THEOREMS = ["C07_keyed_bounded", "C07_keyed_chain_bounded", "C07_indexed_bounded"]
+THEOREMS = ["C07_indexed_refines", "C07_indexed_chain", "C07_keyed_refines", "C07_keyed_chain", "C07_keyed_history"]
 
 
 def all_lists(keys, maxlen):
